@@ -39,6 +39,36 @@ CLAIMED = {
             'Trusted: Lean kernel, standard axioms, extract.py (AST pattern extraction of ACCEPTED_CATEGORIES, polarity, fallbacks, dispatch chain), harness. '
             'The ANTLR recogniser is a parameter of the theorem (nothing assumed beyond the set of categories the listener can build, which is generated and checked).',
             'DESIGN.md §5 C18'),
+    'C04': ('Lean 4 proof over token values: list lemmas on split/join/filter (splitOnC_joinSep, bekernNote_noteText); translator-regenerated separators and prefix table; correspondence on parsed generated cells and documents',
+            'Theorems C04_kern_is_stripped_ekern / C04_akern_is_stripped_aekern / C04_bkern_is_stripped_bekern (every token, category list, clef), C04_bekern_notewise '
+            '(every chord of any number of notes with grammar sub-tokens and every category selection keeping a pitch/duration sub-token of each note: bekern = ekern '
+            'of the same token with each note\'s decorations removed, so no note is lost), C04_header (all six prefixes from the regenerated table), '
+            'C04_nonnote_identical (cells free of the separator characters). Tied by tokenising real parser output of generated abstract cells in the six encodings '
+            'and by whole documents against the abstract-grid oracle.',
+            'Trusted: Lean kernel, standard axioms, extract.py, harness. Modelled not verified: the six tokenizers and NoteRestToken.export (hand-modelled, validated by '
+            'correspondence); the ANTLR listener (tokOf tie checked in the same run). Open finding F10 (separator characters inside free text) is outside the hypotheses.',
+            'DESIGN.md §5 C04'),
+    'C10': ('Lean 4 proof: staff-position arithmetic for every octave in Z by omega over kernel-decided tables (clef bottom lines, LETTERS, LETTER_TO_INDEX regenerated); clef-mark lemma by list induction; exhaustive grid correspondence + documents with clef tracking',
+            'Theorems C10_position (one characterisation: the agnostic spelling is the Humdrum spelling of index(pitch) - index(bottom line) + index(E4) with the same accidental, '
+            'every letter/alteration/octave/clef), C10_G2_identity, C10_translation (k diatonic steps), C10_bottom_is_e, C10_all_clefs, C10_marks_ignored (any number of ^/v marks). '
+            'Tied by the exhaustive clef x marks x letter x accidental x octave grid; the document-level clause (agnostic export = kern export with only pitch letters converted '
+            'under the clef in force) is checked on generated documents against an oracle that tracks clefs along spine paths on the source grid, and against the model.',
+            'Trusted: Lean kernel, standard axioms, extract.py, harness; decimal formatting of the staff position is not modelled. The document-level clause is established by '
+            'correspondence with the document model (export_token reads last_signature_nodes), not by a separate theorem.',
+            'DESIGN.md §5 C10'),
+    'C14': ('Lean 4 proof (thin, by construction) of history independence over a state-machine model + kernel-decided equality of the regenerated write-site inventory with a reviewed allow-list; snapshot histories on the real code',
+            'Theorems C14_pure / C14_two_imports (any operation sequence leaves the state unchanged and returns what a fresh import returns) hold in the pure model by construction; '
+            'the substantive obligation is C14_write_sites: the list of attribute/subscript assignments and mutating calls on non-local receivers in everything reachable from the '
+            'read-only API, regenerated from the AST on every run, equals a reviewed allow-list of 35 sites that all act on objects created during the call. Histories of 12 random '
+            'read-only calls (including raising ones) are run on the real code with deep snapshots of tree, tokens and module constants and compared with a fresh import.',
+            'Partial by nature: hidden Python mutation / aliasing cannot be exhibited by a pure model; it is covered only by the inventory (syntactic, direct writes) and the sampled histories.',
+            'DESIGN.md §5 C14'),
+    'C20': ('Lean 4 proof by induction that the csv record splitter and str.splitlines agree on texts whose only boundaries are LF/CR/CRLF (with a kernel-decided counterexample outside); real files and subprocesses for the rest',
+            'Theorems C20_readers and C20_same_document (every text with LF, CRLF or CR line ends, with or without final newline, any other characters: import_file and import_string '
+            'see the same rows, hence build the same document for every cell parser), C20_domain_is_needed. dump = dumps, the converter functions and real `python -m kernpy` '
+            'subprocesses (single file, directory, recursive) are compared byte for byte with the API on generated documents; ekern -> kern -> ekern on the converter output.',
+            'Partial by nature: file system, locale default encoding of open(), argparse and glob order are not modelled; they are exercised as they are in this sandbox.',
+            'DESIGN.md §5 C20'),
 }
 
 NOT_YET = {}
